@@ -28,6 +28,12 @@ CHECKS = {
         "note": "Not covered (async driver, outside contract reach): that the driver deletes/marks exactly what GrState says and keeps its timers in step (A-C10-1, known false at two call sites by inspection), NO_LLGR handling and re-announced routes surviving the purge (Table functions, note T), families_to_drop_on_disconnect (generic iterator argument). Trusted: prelude contracts (mem::replace, is_hard_reset, R11/R12 iterator helpers), fnv hash-set model, A-C10-2.",
         "technique": "deductive verification with Verus: per-transition coverage invariant on the real GrState::process, decision-table postcondition on gr_on_disconnect",
     },
+    "C02": {
+        "text": "Proof (Verus, unbounded) that the comparator IS the stated decision order: RibEntry::cmp (with PartialOrd/PartialEq) is verified in place against spec_cmp written from the property (not LLGR-stale first, then higher LOCAL_PREF, shorter AS_PATH, lower ORIGIN, eBGP over iBGP/confed-eBGP, not GR-stale, shorter CLUSTER_LIST, lower ORIGINATOR_ID/router-id); evpn_type2_cmp puts the MAC-mobility sequence number ahead of everything; the five PathAttribute accessors are verified against 'first attribute with that code, else the default' (including their unwrap()s under the wire-validity invariant); NlriChange::ecmp_paths returns exactly the longest prefix of the ranking tied with the best path on every step before the router-id step; spec lemmas show the order is lexicographic on the stated key and a total preorder, so 'no eligible path beats the selected one' is well defined. Found and fixed F-C02-1 (LLGR staleness compared sixth instead of first) and F-C02-3 (ECMP key without LLGR staleness).",
+        "design_ref": "DESIGN.md §4 C02",
+        "note": "NOT covered (note T): that the Table mutators keep each destination list sorted by this comparator, exclude import-rejected / next-hop-invalid paths and are insensitive to arrival order — those are 60-170-line hashbrown/Arc/atomic functions outside Verus's dialect, and CBMC does not terminate on hashbrown. AS_PATH hop counting (packet::Attribute::as_path_length) is an uninterpreted function here. Trusted: see coverage.trusted_base (packet accessors, Source kept outside Verus, A-C02-1).",
+        "technique": "deductive verification with Verus: OrdSpecImpl postcondition on the real RibEntry::cmp, spec lemmas for the order",
+    },
     "C03": {
         "text": "Kani/CBMC on the real decoders compiled inside the packet crate. BFD: Message::decode is loop-free and proved total and exact for every datagram of 0..=300 symbolic bytes (complete: accepts exactly the well-formed packets, reports the wire fields, never panics). RTR: Message::frame_length proved against its full contract (complete, loop-free: a frame is reported only if 8 <= length <= buffered bytes; 'need more bytes' only when no complete PDU is buffered; impossible lengths are errors), Message::from_bytes total on complete frames up to 40 bytes (bounded), RtrCodec::decode's framing loop with from_bytes replaced by 'any outcome' (bounded, buffers <= 24 bytes): a message only after consuming > 0 bytes, a complete PDU is consumed, skipped or rejected. BGP: PeerCodec::try_parse framing with the body parser replaced by 'any outcome' (bounded buffers <= 40 bytes, length field and extended-message flag fully symbolic). Bounded harnesses are reported separately and not counted as proved.",
         "design_ref": "DESIGN.md §4 C03, §3.2",
@@ -38,7 +44,7 @@ CHECKS = {
 
 _NOT_BUILT = "claimed in DESIGN.md but its check is not built yet in this round; listed here until the check is quiet on the unchanged tree"
 NOT_APPLICABLE = {
-    "C02": _NOT_BUILT, "C04": _NOT_BUILT, "C05": _NOT_BUILT,
+    "C04": _NOT_BUILT, "C05": _NOT_BUILT,
     "C06": _NOT_BUILT, "C09": _NOT_BUILT, "C12": _NOT_BUILT, "C14": _NOT_BUILT,
     "C16": _NOT_BUILT, "C19": _NOT_BUILT,
     "C11": "RestartingDeferral::{new,process} use ~15 iterator adapters and the HashMap Entry API that Verus rejects (a function is verified whole or not at all) and CBMC does not terminate on hashbrown (20-min timeout at the smallest non-vacuous unwinding); no contract within reach decides it (DESIGN.md §5)",
